@@ -112,6 +112,7 @@ func (n *decoratorNode) Call(s containerStore) (err error) {
 			n.state = decoratorReady
 		}
 	}()
+	n.s.rootScope().decoratorsStarted++
 
 	if err := shallowCheckDependencies(s, n.params); err != nil {
 		return errMissingDependencies{
